@@ -2324,7 +2324,11 @@ func (self *LockDB) UnLock(serverProtocol ServerProtocol, command *protocol.Lock
 
 	lockManager := self.GetLockManager(command)
 	if lockManager == nil {
-		_ = serverProtocol.ProcessLockResultCommand(command, protocol.RESULT_UNLOCK_ERROR, 0, 0, nil)
+		result := uint8(protocol.RESULT_UNLOCK_ERROR)
+		if self.status != STATE_LEADER && command.Flag&protocol.UNLOCK_FLAG_FROM_AOF == 0 {
+			result = protocol.RESULT_STATE_ERROR
+		}
+		_ = serverProtocol.ProcessLockResultCommand(command, result, 0, 0, nil)
 		_ = serverProtocol.FreeLockCommand(command)
 		atomic.AddUint32(&self.states[self.managerMaxGlocks].UnlockErrorCount, 1)
 		return nil
